@@ -116,7 +116,28 @@ def _build_cue_variants(inputs):
             f = parse_cue_sheet(lines)
         except BadCueSheet:
             return "BadCueSheet"
-        return {"bin": f.bin_file_name,
+        # "... the image produced from it is therefore the same": the sheet opened the way the tool opens it (determine_image_type on the
+        # path, next to a bin file), reduced to the kind of image and its top-level listing
+        import io, shutil, contextlib
+        from smpl_extract.actions import determine_image_type, ls_action
+        d = tempfile.mkdtemp(prefix="verif_cue_img_")
+        try:
+            with open(os.path.join(d, f.bin_file_name), "wb") as bf:
+                bf.write(bytes(2352 * 8))
+            cue_path = os.path.join(d, "sheet.cue")
+            with open(cue_path, "w", newline="") as cf:
+                cf.write(text)
+            try:
+                img = determine_image_type(cue_path)
+                buf = io.StringIO()
+                with contextlib.redirect_stdout(buf):
+                    ls_action(img, "")
+                opened = [type(img).__name__, buf.getvalue()]
+            except Exception as e:  # noqa
+                opened = ["raised " + type(e).__name__]
+        finally:
+            shutil.rmtree(d, ignore_errors=True)
+        return {"bin": f.bin_file_name, "opened": opened,
                 "tracks": [[t.number, t.mode.lower(), t.title, [[i.number, i.n_minutes, i.n_seconds, i.n_frames] for i in t.indices]]
                            for t in f.tracks]}
 
@@ -146,6 +167,10 @@ def _oracle_cue_variants(inputs, kind, val, env):
         return ["oracle.canonical-sheet-must-parse"]
     want = {"bin": "img.bin", "tracks": [[t["number"], t["mode"].lower(), t["title"], [list(i) for i in t["indices"]]] for t in inputs["tracks"]]}
     bad = []
+    if isinstance(val["base"], dict):
+        want["opened"] = val["base"].get("opened")          # (the listing itself is judged by C03 / C20; here: the SAME under cosmetic changes)
+        if all(t["mode"].upper() == "AUDIO" for t in inputs["tracks"]) and (val["base"].get("opened") or [None])[0] != "CompactDiskAudioImage":
+            bad.append(f"oracle.all-audio-sheet-opens-as-CDDA(got {val['base'].get('opened')})")
     if val["base"] != want:
         bad.append(f"oracle.canonical-meaning(expected {want}, parsed {val['base']})")
     if val["styled"] != val["base"]:
@@ -197,7 +222,9 @@ def _small_cue_variants(tier, seed, shard=(0, 1)):
                    "insert_text": rnd.choice(["REM x", "PERFORMER \"p\"", "  flags dcp  ", "SONGWRITER \"s\"", "rem TRACK", "CDTEXTFILE \"a.cdt\"",
                                               # unknown lines that merely MENTION a keyword entry further on
                                               "REM was INDEX 01 00:00:01 before remaster", "REM ORIGINAL TITLE \"Other\"", "rem index 09 11:11:11",
-                                              "PERFORMER \"TITLE \"x\"\"", "REM FILE \"other.bin\" BINARY", "ISRC TRACK01INDEX"])}
+                                              "PERFORMER \"TITLE \"x\"\"", "REM FILE \"other.bin\" BINARY", "ISRC TRACK01INDEX",
+                                              # unknown lines that are ONE bare word
+                                              "REM", "rem", "FLAGS", "  PREGAP  ", "X"])}
 
 
 @contract("bounded:cue_cosmetics", props=["C17"], abstract=True)
